@@ -19,6 +19,7 @@ import json  # noqa: E402
 import logging  # noqa: E402
 import multiprocessing  # noqa: E402
 import random  # noqa: E402
+import re  # noqa: E402
 import time  # noqa: E402
 import warnings  # noqa: E402
 from types import SimpleNamespace  # noqa: E402
@@ -301,6 +302,19 @@ class StubHost(object):
         return st
 
 
+_CODE_NAMES = {}
+for _n in dir(berte_exceptions):
+    _o = getattr(berte_exceptions, _n)
+    if isinstance(_o, type) and getattr(_o, 'code', None) is not None:
+        _CODE_NAMES.setdefault(str(_o.code), _n)
+
+
+def incoherence_names(err):
+    """names of the errors listed in an IncoherentQueues message"""
+    codes = re.findall(r' - \[(\w+)\]', str(err))
+    return sorted(_CODE_NAMES.get(c, c) for c in codes) or [str(err)]
+
+
 def run_real(built, assign, force_merge, comparisons=None):
     """One evaluation of the queues by the real code, as handle_merge_queues
     does it: fresh clone, cascade.build, QueueCollection.build, validate,
@@ -324,8 +338,7 @@ def run_real(built, assign, force_merge, comparisons=None):
     try:
         qc.validate()
     except berte_exceptions.IncoherentQueues as err:
-        res['validate_raised'] = sorted(
-            type(e).__name__ for e in err.args[0]) if err.args else ['?']
+        res['validate_raised'] = incoherence_names(err)
         return res
     res['asked_before_validate'] = len(host.asked)
     res['queued_prs'] = list(qc.queued_prs)
@@ -336,8 +349,13 @@ def run_real(built, assign, force_merge, comparisons=None):
                                 q[gwf.QueueIntegrationBranch]]
         for v, q in mq.items()}
     before = {d: repo.remote.get(d) for d in built.dest_branches}
-    queueing.merge_queues(mq)
-    git_utils.push(repo, prune=True)
+    try:
+        queueing.merge_queues(mq)
+        git_utils.push(repo, prune=True)
+    except NeedDecision:
+        raise
+    except Exception as err:                      # pragma: no cover
+        res['error'] = '%s: %s' % (type(err).__name__, err)
     res['moved'] = {d: repo.remote.get(d) for d in built.dest_branches
                     if repo.remote.get(d) != before[d]}
     res['remaining_qw'] = sorted(n for n in repo.remote
@@ -345,3 +363,909 @@ def run_real(built, assign, force_merge, comparisons=None):
     res['asked'] = list(host.asked)
     res['unknown'] = host.unknown
     return res
+
+
+# ----------------------------------------------------------------------- #
+# judging one evaluation against the oracle, clause by clause
+# ----------------------------------------------------------------------- #
+def key_str(key):
+    return '%d:%s' % key
+
+
+def structural_signature(clause, detail, shape, prs):
+    """clause + direction + structure of the case (no statuses)."""
+    n_paths = 1 + len(shape['stabs'])          # what get_merge_paths yields
+    entry = {oracle_targets(shape, d)[0] for d in prs
+             if not d.startswith('hotfix/')}
+    hf = any(d.startswith('hotfix/') for d in prs)
+    return '%s:%s|merge_paths=%d|entry_branches=%d|hotfix_pr=%d' % (
+        clause, detail, n_paths, len(entry), int(hf))
+
+
+def expected_moves_for(shape, prs, selected):
+    """clause (b): given a set of selected PRs, where must each destination
+    branch go?  {destination branch: (pr_id, version)}"""
+    moves = {}
+    for pr_id, dest in enumerate(prs, 1):
+        if pr_id in selected:
+            for v in oracle_targets(shape, dest):
+                moves[branch_of_version(v)] = (pr_id, v)
+    return moves
+
+
+def judge(built, status, force_merge, res):
+    """Slow, dictionary based judgement of one real evaluation ``res``
+    (output of run_real) under the full status assignment
+    ``status`` {(pr, version): str}.  Returns a list of failed clauses:
+    [{'clause', 'detail', 'expected', 'got'}] (empty = property holds)."""
+    shape, prs = built.shape, built.prs
+    out = []
+    if res.get('validate_raised'):
+        return [{'clause': 'validate_raised', 'detail': 'validate',
+                 'expected': 'validate() returns for a queue built by '
+                 'add_to_queue', 'got': res['validate_raised']}]
+    if res.get('error'):
+        out.append({'clause': 'exception', 'detail': 'merge',
+                    'expected': 'no exception', 'got': res['error']})
+    exp_sel, _ = oracle(shape, prs, status, force_merge)
+    got_sel = set(res['mergeable_prs'])
+    # (a) prefix + maximality
+    if got_sel != exp_sel or len(got_sel) != len(res['mergeable_prs']):
+        if got_sel > exp_sel:
+            detail = 'over-selects'
+        elif got_sel < exp_sel:
+            detail = 'under-selects'
+        else:
+            detail = 'incomparable'
+        out.append({'clause': 'a', 'detail': detail,
+                    'expected': sorted(exp_sel),
+                    'got': list(res['mergeable_prs'])})
+    # (b) destinations moved exactly to the queue commit of the newest
+    #     selected PR (judged against the code's own selection)
+    exp_moves = {d: built.qw[k] for d, k in
+                 expected_moves_for(shape, prs, got_sel).items()}
+    if res['moved'] != exp_moves:
+        def show(moves):
+            return {d: key_str(built.sha_key[s]) if s in built.sha_key
+                    else s for d, s in sorted(moves.items())}
+        out.append({'clause': 'b', 'detail': 'moves',
+                    'expected': show(exp_moves), 'got': show(res['moved'])})
+    # (c) every commit a destination moved to is SUCCESSFUL
+    if not force_merge:
+        bad = {}
+        for d, sha in sorted(res['moved'].items()):
+            k = built.sha_key.get(sha)
+            st = status.get(k) if k else 'not a queue commit'
+            if st != GREEN:
+                bad[d] = [key_str(k) if k else sha, st]
+        if bad:
+            out.append({'clause': 'c', 'detail': 'red-commit-merged',
+                        'expected': 'every destination moves to a '
+                        'SUCCESSFUL commit', 'got': bad})
+    # (d) queued_prs
+    out.extend(judge_queued(prs, res['queued_prs']))
+    return out
+
+
+def judge_queued(prs, queued):
+    non_hf = [i for i, d in enumerate(prs, 1) if not d.startswith('hotfix/')]
+    got_non_hf = [p for p in queued if p in non_hf]
+    if got_non_hf != non_hf or sorted(queued) != list(range(1, len(prs) + 1)):
+        return [{'clause': 'd', 'detail': 'queued_prs',
+                 'expected': {'non_hotfix_in_entry_order': non_hf,
+                              'all': list(range(1, len(prs) + 1))},
+                 'got': list(queued)}]
+    return []
+
+
+def make_case(shape, prs, force_merge, status):
+    return {'devs': list(shape['devs']), 'stabs': list(shape['stabs']),
+            'hotfix': bool(shape['hotfix']), 'prs': list(prs),
+            'force_merge': bool(force_merge),
+            'status': {key_str(k): v for k, v in status.items()}}
+
+
+def case_parts(case):
+    shape = {'devs': list(case['devs']), 'stabs': list(case['stabs']),
+             'hotfix': bool(case['hotfix'])}
+    prs = list(case['prs'])
+    status = {}
+    for k, v in (case.get('status') or {}).items():
+        pr, ver = k.split(':')
+        status[(int(pr), ver)] = v
+    return shape, prs, bool(case.get('force_merge')), status
+
+
+def replay(case):
+    """Re-run one case through the unmodified slow path (fresh repository,
+    fresh clone, real cascade / QueueCollection / merge_queues / push)."""
+    shape, prs, force, status = case_parts(case)
+    built = build_case_repo(shape, prs)
+    for k in built.keys:
+        status.setdefault(k, 'NOTSTARTED')
+    assign = {built.qw[k]: status[k] for k in built.keys}
+    comparisons = set()
+    res = run_real(built, assign, force, comparisons)
+    failed = judge(built, status, force, res)
+    if built.anomalies:
+        failed.append({'clause': 'build', 'detail': 'anomaly',
+                       'expected': 'none', 'got': repr(built.anomalies)})
+    exp_sel, exp_moves = oracle(shape, prs, status, force)
+    summary = {
+        'selected': res.get('mergeable_prs'),
+        'queued_prs': res.get('queued_prs'),
+        'moved': {d: key_str(built.sha_key[s]) if s in built.sha_key else s
+                  for d, s in sorted(res.get('moved', {}).items())},
+        'oracle_selected': sorted(exp_sel),
+        'oracle_moves': {d: key_str(k) for d, k in sorted(exp_moves.items())},
+        'merge_paths': res.get('merge_paths'),
+        'status_comparisons_seen': sorted(map(list, comparisons)),
+    }
+    first = failed[0] if failed else None
+    return {'ok': not failed,
+            'clause': first['clause'] if first else None,
+            'expected': first['expected'] if first else None,
+            'got': first['got'] if first else None,
+            'failed_clauses': failed, 'result': summary}
+
+
+# ----------------------------------------------------------------------- #
+# fast path: one prepared QueueCollection per (shape, prs, force), then one
+# real QueueCollection._process() per status assignment
+# ----------------------------------------------------------------------- #
+import copy as _copy  # noqa: E402
+from bert_e.lib import git as _git  # noqa: E402
+
+_BRANCH_TYPES = [_git.Branch] + [
+    t for t in vars(gwf).values()
+    if isinstance(t, type) and issubclass(t, _git.Branch)]
+
+
+def fast_copy(enabled):
+    """The real _process()/validate() deep-copy the whole queue dictionary
+    once per merge path; ~80% of that time is spent re-creating Branch
+    objects that are never mutated afterwards.  In the fast path the Branch
+    classes are registered as atomic for copy.deepcopy (dicts and lists - the
+    only things the code pops from - are still really copied).  The slow path
+    (replay, cross-checks) runs with the registration removed."""
+    for t in _BRANCH_TYPES:
+        if enabled:
+            _copy._deepcopy_dispatch[t] = _copy._deepcopy_atomic
+        else:
+            _copy._deepcopy_dispatch.pop(t, None)
+
+
+class Prepared(object):
+    """Everything of handle_merge_queues that does not depend on statuses,
+    done once: fresh clone, cascade.build, QueueCollection.build, validate,
+    queued_prs."""
+
+    def __init__(self, built, force_merge, comparisons):
+        self.built = built
+        self.force = force_merge
+        repo = built.repo
+        repo.restore(built.snapshot)
+        repo.reset()
+        repo.clone()
+        self.host = StubHost({}, comparisons)
+        cascade = gwf.BranchCascade()
+        cascade.build(repo)
+        self.paths = cascade.get_merge_paths()
+        self.qc = gwf.QueueCollection(self.host, BUILD_KEY, self.paths,
+                                      force_merge)
+        self.qc.build(repo)
+        self.validate_raised = None
+        try:
+            self.qc.validate()
+        except berte_exceptions.IncoherentQueues as err:
+            self.validate_raised = incoherence_names(err)
+            return
+        self.asked_early = len(self.host.asked)
+        self.queued = list(self.qc.queued_prs)
+        self.snap = repo.snapshot()
+        self.merge_memo = {}
+
+    def evaluate(self, assign):
+        """-> (mergeable_prs tuple, moved {dest: sha}, error or None).
+        merge_queues + push are a deterministic function of the repository
+        (always restored to the post-validate snapshot) and of
+        mergeable_queues, so their outcome is memoised per distinct
+        mergeable_queues content."""
+        host, qc, repo = self.host, self.qc, self.built.repo
+        host.assign = assign
+        del host.asked[:]
+        qc._process()
+        prs = tuple(qc.mergeable_prs)
+        mq = qc.mergeable_queues
+        sig = tuple((v, tuple(b.name for b in q[gwf.QueueIntegrationBranch]))
+                    for v, q in mq.items())
+        got = self.merge_memo.get(sig)
+        if got is None:
+            before = {d: repo.remote.get(d) for d in self.built.dest_branches}
+            err = None
+            try:
+                queueing.merge_queues(mq)
+                git_utils.push(repo, prune=True)
+            except Exception as exc:              # pragma: no cover
+                err = '%s: %s' % (type(exc).__name__, exc)
+            moved = {d: repo.remote.get(d) for d in self.built.dest_branches
+                     if repo.remote.get(d) != before[d]}
+            repo.restore(self.snap)
+            got = self.merge_memo[sig] = (moved, err)
+        return prs, got[0], got[1]
+
+
+def popcount(x):
+    return bin(x).count('1')
+
+
+class Acc(object):
+    """Accumulates verdicts of one worker task."""
+
+    def __init__(self):
+        self.cases = 0
+        self.nontrivial = 0
+        self.n_failures = 0
+        self.sigs = {}
+        self.examples = {}       # signature -> [(size key, failure dict)]
+        self.samples = []
+        self.cross = 0
+        self.cross_mismatch = []
+        self.comparisons = set()
+        self.anomalies = []
+        self.evals = 0
+
+    def fail(self, sig, size_key, failure):
+        self.sigs[sig] = self.sigs.get(sig, 0) + 1
+        ex = self.examples.setdefault(sig, [])
+        if len(ex) < 3 or size_key < ex[-1][0]:
+            ex.append((size_key, failure))
+            ex.sort(key=lambda e: e[0])
+            del ex[3:]
+
+
+def status_of_mask(keys, mask, seed):
+    """The concrete 4-valued assignment standing for a green/non-green
+    pattern: non-green commits rotate through FAILED/INPROGRESS/NOTSTARTED
+    (mixed within one assignment)."""
+    rot = popcount(mask) + seed
+    return {k: (GREEN if mask >> i & 1 else NONGREEN[(i + rot) % 3])
+            for i, k in enumerate(keys)}
+
+
+def check_tuple(shape, prs, seed, acc, forces=(False, True),
+                cross_every=1024, direct4_max_m=0, mask_filter=None):
+    """All status assignments of one (cascade shape, PR destination tuple)."""
+    built = build_case_repo(shape, prs)
+    keys = built.keys
+    m = len(keys)
+    shas = [built.qw[k] for k in keys]
+    bit_of_sha = {s: i for i, s in enumerate(shas)}
+    size0 = (len(prs), len(shape['devs']) + len(shape['stabs']) +
+             int(shape['hotfix']), m)
+    if built.anomalies:
+        acc.anomalies.append({'shape': shape, 'prs': list(prs),
+                              'anomaly': repr(built.anomalies)})
+    # --- oracle tables (from the declarative definitions above) ---------
+    queues = list(oracle_queues(shape, prs).values())
+    bit_of_key = {k: i for i, k in enumerate(keys)}
+    need = []                    # per queue: need[j] = mask of prefix heads
+    for q in queues:
+        need.append([sum(1 << bit_of_key[(p, v)]
+                         for v, p in prefix_heads(q, j).items())
+                     for j in range(len(q) + 1)])
+    sel_of_js = {}
+
+    def oracle_fast(green):
+        js = []
+        for qi, q in enumerate(queues):
+            nq = need[qi]
+            j = len(q)
+            while nq[j] & ~green:
+                j -= 1
+            js.append(j)
+        js = tuple(js)
+        sel = sel_of_js.get(js)
+        if sel is None:
+            sel = sel_of_js[js] = frozenset(
+                p for q, j in zip(queues, js) for p, _ in q[:j])
+        return sel
+
+    moves_for_sel = {}
+
+    def clause_b(sel_tuple, moved):
+        exp = moves_for_sel.get(sel_tuple)
+        if exp is None:
+            exp = moves_for_sel[sel_tuple] = {
+                d: built.qw[k] for d, k in
+                expected_moves_for(shape, prs, set(sel_tuple)).items()}
+        return exp == moved, exp
+
+    def show(moves):
+        return {d: key_str(built.sha_key[s]) if s in built.sha_key else s
+                for d, s in sorted(moves.items())}
+
+    for force in forces:
+        prep = Prepared(built, force, acc.comparisons)
+        n_here = 1 if force else (1 << m)
+        if prep.validate_raised:
+            acc.cases += n_here
+            acc.n_failures += n_here
+            sig = structural_signature('validate_raised', 'validate', shape,
+                                       prs)
+            acc.sigs[sig] = acc.sigs.get(sig, 0) + n_here - 1
+            acc.fail(sig, size0 + (0,), {
+                'case': make_case(shape, prs, force,
+                                  status_of_mask(keys, (1 << m) - 1, seed)),
+                'clause': 'validate_raised', 'signature': sig,
+                'expected': 'validate() returns',
+                'got': prep.validate_raised})
+            continue
+        d_fail = judge_queued(prs, prep.queued)
+        if prep.asked_early:
+            acc.anomalies.append({'shape': shape, 'prs': list(prs),
+                                  'anomaly': 'status asked before validate'})
+        if force:
+            # status-blind evaluation: any status query raises NeedDecision
+            masks = [None]
+        elif mask_filter is not None:
+            masks = mask_filter(m)
+        else:
+            masks = range(1 << m)
+        for mask in masks:
+            if mask is None:
+                assign = {}
+                green = 0
+            else:
+                rot = popcount(mask) + seed
+                assign = {s: (GREEN if mask >> i & 1
+                              else NONGREEN[(i + rot) % 3])
+                          for i, s in enumerate(shas)}
+                green = mask
+            try:
+                sel_t, moved, err = prep.evaluate(assign)
+            except NeedDecision:
+                acc.anomalies.append({'shape': shape, 'prs': list(prs),
+                                      'anomaly': 'force_merge asked status'})
+                continue
+            acc.evals += 1
+            acc.cases += 1
+            if prs and not force and mask != (1 << m) - 1:
+                acc.nontrivial += 1
+            failed = []
+            sel = frozenset(sel_t)
+            # (a)
+            if force:
+                exp_sel = frozenset(range(1, len(prs) + 1))
+            else:
+                exp_sel = oracle_fast(green)
+            if sel != exp_sel or len(sel) != len(sel_t):
+                detail = ('over-selects' if sel > exp_sel else
+                          'under-selects' if sel < exp_sel else
+                          'incomparable')
+                failed.append({'clause': 'a', 'detail': detail,
+                               'expected': sorted(exp_sel),
+                               'got': list(sel_t)})
+            # (b)
+            ok_b, exp_moves = clause_b(sel_t, moved)
+            if not ok_b:
+                failed.append({'clause': 'b', 'detail': 'moves',
+                               'expected': show(exp_moves),
+                               'got': show(moved)})
+            # (c)
+            if not force:
+                for d, sha in moved.items():
+                    bit = bit_of_sha.get(sha)
+                    if bit is None or not green >> bit & 1:
+                        st = status_of_mask(keys, mask, seed)
+                        bad = {}
+                        for d2, s2 in sorted(moved.items()):
+                            k2 = built.sha_key.get(s2)
+                            v2 = st[k2] if k2 else 'not a queue commit'
+                            if v2 != GREEN:
+                                bad[d2] = [key_str(k2) if k2 else s2, v2]
+                        failed.append({
+                            'clause': 'c', 'detail': 'red-commit-merged',
+                            'expected': 'every destination moves to a '
+                            'SUCCESSFUL commit', 'got': bad})
+                        break
+            # (d)
+            failed.extend(d_fail)
+            if err:
+                failed.append({'clause': 'exception', 'detail': 'merge',
+                               'expected': 'no exception', 'got': err})
+            if failed:
+                acc.n_failures += 1
+                st = status_of_mask(keys, mask or 0, seed)
+                case = make_case(shape, prs, force, st)
+                size_key = size0 + (m - popcount(mask or 0),)
+                for f in failed:
+                    sig = structural_signature(f['clause'], f['detail'],
+                                               shape, prs)
+                    acc.fail(sig, size_key, {
+                        'case': case, 'clause': f['clause'],
+                        'signature': sig, 'expected': f['expected'],
+                        'got': f['got']})
+            # cross-check of the fast path against the slow path
+            if cross_every and (acc.evals % cross_every == 0):
+                cross_check(built, keys, mask, seed, force, failed, sel_t,
+                            moved, acc)
+            elif not failed and len(acc.samples) < 2 and prs and \
+                    mask is not None and 0 < popcount(mask) < m and \
+                    (mask * 2654435761 + seed) % 97 == 0:
+                acc.samples.append({
+                    'case': make_case(shape, prs, force,
+                                      status_of_mask(keys, mask, seed)),
+                    'result': {'queued_prs': prep.queued,
+                               'selected': list(sel_t),
+                               'moved': show(moved)}})
+        # genuinely 4-valued enumeration (no green/non-green abstraction)
+        if not force and 0 < m <= direct4_max_m:
+            for combo in itertools.product(STATUSES, repeat=m):
+                assign = dict(zip(shas, combo))
+                sel_t, moved, err = prep.evaluate(assign)
+                status = dict(zip(keys, combo))
+                exp_sel, exp_mv = oracle(shape, prs, status, False)
+                green = sum(1 << i for i, c4 in enumerate(combo)
+                            if c4 == GREEN)
+                # the fast judgement of the corresponding pattern must be
+                # what the dictionary oracle says on the 4-valued case
+                bad = (set(sel_t) != exp_sel or
+                       moved != {d: built.qw[k] for d, k in exp_mv.items()})
+                acc.direct4 = getattr(acc, 'direct4', 0) + 1
+                if exp_sel != oracle_fast(green):
+                    acc.cross_mismatch.append(
+                        {'what': 'fast oracle != dict oracle',
+                         'case': make_case(shape, prs, False, status)})
+                if bad:
+                    acc.direct4_fail = getattr(acc, 'direct4_fail', 0) + 1
+                    # must coincide with a failure of the pattern run
+                    rot_st = status_of_mask(keys, green, seed)
+                    a2 = {built.qw[k]: v for k, v in rot_st.items()}
+                    sel2, moved2, _ = prep.evaluate(a2)
+                    if (sel2, moved2) != (sel_t, moved):
+                        acc.cross_mismatch.append(
+                            {'what': '4-valued run differs from its '
+                             'green/non-green pattern run',
+                             'case': make_case(shape, prs, False, status)})
+                else:
+                    rot_st = status_of_mask(keys, green, seed)
+                    a2 = {built.qw[k]: v for k, v in rot_st.items()}
+                    sel2, moved2, _ = prep.evaluate(a2)
+                    if (sel2, moved2) != (sel_t, moved):
+                        acc.cross_mismatch.append(
+                            {'what': '4-valued run differs from its '
+                             'green/non-green pattern run',
+                             'case': make_case(shape, prs, False, status)})
+    return built
+
+
+def cross_check(built, keys, mask, seed, force, failed_fast, sel_t, moved,
+                acc):
+    """Same case through the unmodified slow path + dictionary oracle."""
+    status = status_of_mask(keys, mask or 0, seed)
+    assign = {built.qw[k]: v for k, v in status.items()}
+    keep = built.repo.snapshot()
+    fast_copy(False)
+    try:
+        res = run_real(built, assign, force, acc.comparisons)
+        failed_slow = judge(built, status, force, res)
+    finally:
+        fast_copy(True)
+        built.repo.restore(keep)
+    acc.cross += 1
+    a = sorted((f['clause'], f['detail']) for f in failed_fast)
+    b = sorted((f['clause'], f['detail']) for f in failed_slow)
+    if a != b or tuple(res.get('mergeable_prs', ())) != tuple(sel_t) or \
+            res.get('moved') != moved:
+        acc.cross_mismatch.append({
+            'what': 'fast path != slow path',
+            'case': make_case(built.shape, built.prs, force, status),
+            'fast': [list(x) for x in a], 'slow': [list(x) for x in b]})
+
+
+# ----------------------------------------------------------------------- #
+# QWF: a queue built by add_to_queue validates and is chained; damaged
+# queues are rejected by validate()
+# ----------------------------------------------------------------------- #
+def _qw_ref(pr_id, version):
+    return 'q/w/%d/%s/bugfix/pr%d' % (pr_id, version, pr_id)
+
+
+def _validate_state(built, mutate=None):
+    """Fresh clone of the (possibly damaged) remote -> cascade ->
+    QueueCollection.build -> validate.  Returns (kind, detail, repo state)
+    kind in {'ok', 'incoherent', 'exception'}."""
+    repo = built.repo
+    repo.restore(built.snapshot)
+    if mutate:
+        mutate(repo)
+    repo.reset()
+    repo.clone()
+    try:
+        cascade = gwf.BranchCascade()
+        cascade.build(repo)
+        qc = gwf.QueueCollection(StubHost({}, set()), BUILD_KEY,
+                                 cascade.get_merge_paths(), False)
+        qc.build(repo)
+        qc.validate()
+    except berte_exceptions.IncoherentQueues as err:
+        return 'incoherent', incoherence_names(err), None
+    except Exception as err:
+        return 'exception', '%s: %s' % (type(err).__name__, err), None
+    return 'ok', None, cascade
+
+
+def qwf_damages(built):
+    """Every single structural damage of the scope, as
+    (kind, description, mutate(repo))."""
+    shape, prs = built.shape, built.prs
+    per_version = {}
+    for pr_id, dest in enumerate(prs, 1):
+        for v in oracle_targets(shape, dest):
+            per_version.setdefault(v, []).append(pr_id)
+    out = []
+    for (pr_id, v) in built.keys:
+        ref = _qw_ref(pr_id, v)
+        out.append(('delete_qw', ref,
+                    lambda repo, ref=ref: repo.set_remote(ref, None)))
+    for v in per_version:
+        ref = 'q/' + v
+        out.append(('delete_q', ref,
+                    lambda repo, ref=ref: repo.set_remote(ref, None)))
+        dst = branch_of_version(v)
+        out.append(('reset_q_to_dst', '%s -> %s' % (ref, dst),
+                    lambda repo, ref=ref, dst=dst:
+                    repo.set_remote(ref, repo.remote[dst])))
+    for v, ids in per_version.items():
+        for idx in range(1, len(ids)):
+            newer, older = ids[idx], ids[idx - 1]
+            ref = _qw_ref(newer, v)
+            if idx >= 2:
+                where = _qw_ref(ids[idx - 2], v)
+            else:
+                where = branch_of_version(v)
+            out.append((
+                'swap_qw', '%s recreated on %s (i.e. before PR %d entered)'
+                % (ref, where, older),
+                lambda repo, ref=ref, where=where:
+                repo.set_remote(ref, repo.remote[where])))
+    return out
+
+
+def check_qwf(case):
+    """Queue well-formedness on one case (statuses are irrelevant).
+
+    1. for the queue as built by the real add_to_queue: validate() returns;
+       for every merge path and every PR, the q/w commits of consecutive
+       versions include each other (q/w/<pr>/<next> includes q/w/<pr>/<v>);
+       every q/<v> points at the newest q/w of that version and includes the
+       tip of its destination branch;
+    2. for each single damage in {delete one q/w ref, delete one q/<v> ref,
+       reset one q/<v> to its destination branch, recreate one q/w on the
+       commit preceding the previous PR's entry (order swap)}: validate()
+       raises IncoherentQueues.
+    """
+    shape, prs, _, _ = case_parts(case)
+    built = build_case_repo(shape, prs)
+    failures = []
+    checks = 0
+    base = {'devs': shape['devs'], 'stabs': shape['stabs'],
+            'hotfix': shape['hotfix'], 'prs': prs}
+    kind, detail, cascade = _validate_state(built)
+    checks += 1
+    if kind != 'ok':
+        failures.append({'case': base, 'check': 'validate_intact',
+                         'expected': 'returns', 'got': [kind, detail]})
+    else:
+        repo = built.repo
+        targets = {i: oracle_targets(shape, d) for i, d in enumerate(prs, 1)}
+        paths = [[b.name for b in p] for p in cascade.get_merge_paths()]
+        for path in paths:
+            versions = [n.split('/')[1] for n in path]
+            for a, b in zip(versions, versions[1:]):
+                for pr_id, tg in targets.items():
+                    if a in tg and b in tg:
+                        checks += 1
+                        hi = gwf.branch_factory(repo, _qw_ref(pr_id, b))
+                        lo = gwf.branch_factory(repo, _qw_ref(pr_id, a))
+                        if not hi.includes_commit(lo):
+                            failures.append({
+                                'case': base, 'check': 'chained',
+                                'expected': '%s includes %s' % (hi, lo),
+                                'got': 'not included'})
+        heads = {}
+        for pr_id, tg in targets.items():
+            for v in tg:
+                heads[v] = pr_id
+        for v, pr_id in heads.items():
+            checks += 2
+            q = gwf.branch_factory(repo, 'q/' + v)
+            if q.get_latest_commit() != gwf.branch_factory(
+                    repo, _qw_ref(pr_id, v)).get_latest_commit():
+                failures.append({'case': base, 'check': 'head',
+                                 'expected': 'q/%s == %s' % (
+                                     v, _qw_ref(pr_id, v)),
+                                 'got': 'different commits'})
+            if not q.includes_commit(q.dst_branch.get_latest_commit()):
+                failures.append({'case': base, 'check': 'includes_dst',
+                                 'expected': '%s includes %s' % (
+                                     q, q.dst_branch), 'got': 'not included'})
+    n_damage = {}
+    for dkind, desc, mutate in qwf_damages(built):
+        checks += 1
+        n_damage[dkind] = n_damage.get(dkind, 0) + 1
+        kind, detail, _ = _validate_state(built, mutate)
+        if kind != 'incoherent':
+            failures.append({
+                'case': base, 'check': 'damage:' + dkind, 'damage': desc,
+                'expected': 'validate() raises IncoherentQueues',
+                'got': 'validate() returned normally' if kind == 'ok'
+                else detail})
+    return {'ok': not failures, 'checks': checks, 'damages': n_damage,
+            'n_failures': len(failures), 'failures': failures}
+
+
+def qwf_signature(shape, prs, failure):
+    """structural signature of a QWF failure"""
+    sig = failure['check']
+    if failure['check'].startswith('damage:'):
+        ref = failure['damage'].split(' ')[0]
+        m = re.match(r'q/w/(\d+)/([^/]+)/', ref)
+        if m:
+            pr_id, v = int(m.group(1)), m.group(2)
+            tg = oracle_targets(shape, prs[pr_id - 1])
+            newest = [i for i, d in enumerate(prs, 1)
+                      if v in oracle_targets(shape, d)][-1]
+            sig += '|pr_targets=%d|%s' % (
+                len(tg), 'newest_in_version' if newest == pr_id
+                else 'not_newest_in_version')
+            sig += '|hotfix' if v.count('.') == 3 else ''
+        else:
+            v = ref.split('/')[1]
+            sig += '|hotfix' if v.count('.') == 3 else ''
+        sig += '|got=' + ('returned' if 'returned' in str(failure['got'])
+                          else str(failure['got']).split(':')[0])
+    return sig
+
+
+# ----------------------------------------------------------------------- #
+# enumeration, workers, aggregation
+# ----------------------------------------------------------------------- #
+def tuple_weight(shape, prs):
+    return 1 << sum(len(oracle_targets(shape, d)) for d in prs)
+
+
+def enumerate_tasks(tier, seed):
+    """-> (tasks, description).  task = (shape, prs, options)"""
+    shapes = all_shapes()
+    tasks = []
+    if tier == 'thorough':
+        for sh in shapes:
+            dests = destinations(sh)
+            for k in range(0, 5):
+                for prs in itertools.product(dests, repeat=k):
+                    tasks.append((sh, prs, {'qwf': True, 'direct4': 5}))
+        desc = ('all 28 cascade shapes x every destination tuple of 0..4 '
+                'PRs (17578 tuples) x force_merge in {False, True}; for '
+                'force_merge=False every green/non-green pattern of the '
+                'q/w commits (2^m per tuple)')
+        return tasks, desc, True
+    rng = random.Random(seed)
+    budget = 36000            # status patterns of 4-PR tuples per shape
+    n4 = 0
+    for sh in shapes:
+        dests = destinations(sh)
+        for k in range(0, 4):
+            for prs in itertools.product(dests, repeat=k):
+                tasks.append((sh, prs, {'qwf': k <= 3,
+                                        'direct4': 4 if k <= 2 else 0}))
+        four = list(itertools.product(dests, repeat=4))
+        rng.shuffle(four)
+        left = budget
+        for prs in four:
+            w = tuple_weight(sh, prs)
+            if w <= left:
+                left -= w
+                n4 += 1
+                tasks.append((sh, prs, {'qwf': False, 'direct4': 0}))
+    desc = ('all 28 cascade shapes x every destination tuple of 0..3 PRs '
+            '(3372 tuples, exhaustive) + a seeded (seed=%d) selection of '
+            '%d of the 14206 4-PR tuples (per shape: tuples drawn in random '
+            'order while their 2^m patterns fit a budget of %d) x '
+            'force_merge in {False, True}; for force_merge=False every '
+            'green/non-green pattern of the q/w commits of each selected '
+            'tuple (2^m, exhaustive)' % (seed, n4, budget))
+    return tasks, desc, False
+
+
+def _worker(args):
+    shape, prs, opts, seed = args
+    fast_copy(True)
+    acc = Acc()
+    t0 = time.time()
+    out = {'qwf_cases': 0, 'qwf_checks': 0, 'qwf_fail': 0, 'qwf_sigs': {},
+           'qwf_examples': {}, 'qwf_damages': {}}
+    try:
+        check_tuple(shape, prs, seed, acc, cross_every=opts.get('cross', 512),
+                    direct4_max_m=opts.get('direct4', 0))
+        if opts.get('qwf'):
+            fast_copy(False)
+            r = check_qwf({'devs': shape['devs'], 'stabs': shape['stabs'],
+                           'hotfix': shape['hotfix'], 'prs': list(prs)})
+            out['qwf_cases'] = 1
+            out['qwf_checks'] = r['checks']
+            out['qwf_damages'] = r['damages']
+            out['qwf_fail'] = 1 if r['failures'] else 0
+            for f in r['failures']:
+                sig = qwf_signature(shape, list(prs), f)
+                out['qwf_sigs'][sig] = out['qwf_sigs'].get(sig, 0) + 1
+                out['qwf_examples'].setdefault(sig, (len(prs), f))
+    except Exception as err:                       # harness bug, not a verdict
+        import traceback
+        out['crash'] = {'shape': shape, 'prs': list(prs),
+                        'error': traceback.format_exc()[-1500:]}
+    out.update({
+        'cases': acc.cases, 'nontrivial': acc.nontrivial,
+        'n_failures': acc.n_failures, 'sigs': acc.sigs,
+        'examples': acc.examples, 'samples': acc.samples[:1],
+        'cross': acc.cross, 'cross_mismatch': acc.cross_mismatch[:3],
+        'comparisons': sorted(acc.comparisons), 'anomalies': acc.anomalies,
+        'direct4': getattr(acc, 'direct4', 0),
+        'direct4_fail': getattr(acc, 'direct4_fail', 0),
+        'evals': acc.evals, 'm': sum(len(oracle_targets(shape, d))
+                                     for d in prs),
+        't': time.time() - t0})
+    return out
+
+
+def run(tier='quick', seed=0, jobs=16):
+    """Bounded check of C05 (+ QWF) - see module docstring / 'rule'."""
+    t0 = time.time()
+    tasks, scope_desc, full = enumerate_tasks(tier, seed)
+    # heaviest first, for load balancing
+    order = sorted(range(len(tasks)),
+                   key=lambda i: -tuple_weight(tasks[i][0], tasks[i][1]))
+    args = [(tasks[i][0], tasks[i][1], tasks[i][2], seed) for i in order]
+    tot = {'cases': 0, 'nontrivial': 0, 'n_failures': 0, 'cross': 0,
+           'direct4': 0, 'direct4_fail': 0, 'evals': 0, 'represented4': 0,
+           'qwf_cases': 0, 'qwf_checks': 0, 'qwf_fail': 0}
+    sigs, examples, samples = {}, {}, []
+    qwf_sigs, qwf_examples, qwf_damages = {}, {}, {}
+    cross_mismatch, anomalies, crashes = [], [], []
+    comparisons = set()
+    n_tuples = 0
+    if jobs > 1:
+        pool = multiprocessing.Pool(jobs)
+        results = pool.imap_unordered(_worker, args, chunksize=1)
+    else:
+        pool = None
+        results = map(_worker, args)
+    for out in results:
+        n_tuples += 1
+        for k in tot:
+            if k in out:
+                tot[k] += out[k]
+        tot['represented4'] += 4 ** out['m'] * 2
+        for s, n in out['sigs'].items():
+            sigs[s] = sigs.get(s, 0) + n
+        for s, exs in out['examples'].items():
+            cur = examples.setdefault(s, [])
+            cur.extend(exs)
+            cur.sort(key=lambda e: e[0])
+            del cur[3:]
+        if out['samples'] and len(samples) < 40:
+            samples.extend(out['samples'])
+        for s, n in out['qwf_sigs'].items():
+            qwf_sigs[s] = qwf_sigs.get(s, 0) + n
+        for s, ex in out['qwf_examples'].items():
+            if s not in qwf_examples or ex[0] < qwf_examples[s][0]:
+                qwf_examples[s] = ex
+        for s, n in out['qwf_damages'].items():
+            qwf_damages[s] = qwf_damages.get(s, 0) + n
+        cross_mismatch.extend(out['cross_mismatch'])
+        anomalies.extend(out['anomalies'])
+        comparisons.update(map(tuple, out['comparisons']))
+        if 'crash' in out:
+            crashes.append(out['crash'])
+    if pool:
+        pool.close()
+        pool.join()
+    # failures: smallest examples first, round-robin over the signatures
+    ranked = sorted(examples.items(), key=lambda kv: kv[1][0][0])
+    failures = []
+    for rnd in range(3):
+        for s, exs in ranked:
+            if rnd < len(exs) and len(failures) < 50:
+                failures.append(exs[rnd][1])
+    # every reported failure is confirmed through the slow path
+    fast_copy(False)
+    confirmed = 0
+    for f in failures:
+        r = replay(f['case'])
+        f['replay_confirms'] = (not r['ok']) and any(
+            x['clause'] == f['clause'] for x in r['failed_clauses'])
+        confirmed += bool(f['replay_confirms'])
+    # samples: a few passing cases, re-run through the slow path as well
+    rng = random.Random(seed)
+    rng.shuffle(samples)
+    good = []
+    for smp in samples:
+        if len(good) >= 5:
+            break
+        r = replay(smp['case'])
+        if r['ok']:
+            smp['result']['replay'] = r['result']
+            good.append(smp)
+    abstraction_ok = comparisons <= {('!=', GREEN)}
+    rule = (
+        "A case = (cascade shape, destination branch of each queued PR in "
+        "entry order, force_merge, status of every q/w commit). The "
+        "repository of each (shape, destinations) tuple is built by the real "
+        "create/update_integration_branches + add_to_queue on FakeRepo. "
+        "force_merge=False: one real QueueCollection._process() run per "
+        "green/non-green pattern of the m q/w commits (2^m per tuple, non-"
+        "green commits rotating through FAILED/INPROGRESS/NOTSTARTED, mixed "
+        "inside one assignment); every pattern stands for the 3^(#non-green) "
+        "4-valued assignments with that pattern, which is sound because the "
+        "code only ever evaluates `status != 'SUCCESSFUL'` on a status "
+        "(recorded by an instrumented str: comparisons seen = %s); "
+        "all 4^m assignments are additionally enumerated one by one for the "
+        "tuples with m <= 4 (quick; k<=2) / m <= 5 (thorough). "
+        "force_merge=True: one status-blind run per tuple (the stub raises "
+        "on any status query; none happened), which covers every status "
+        "assignment of the tuple; it counts as ONE case. build()+validate() "
+        "are executed once per (tuple, force); merge_queues()+push are "
+        "executed once per distinct mergeable_queues content and memoised "
+        "(same repository snapshot => same outcome). Fast path registers "
+        "Branch classes as atomic for copy.deepcopy; 1 evaluation in 512 "
+        "plus every reported failure and sample is re-run through the "
+        "unmodified slow path (fresh clone, full handle_merge_queues "
+        "sequence, dictionary oracle). Non-trivial = at least one PR "
+        "queued, force_merge=False and not every q/w commit SUCCESSFUL. "
+        "All enumerated cases are pairwise distinct by construction."
+        % sorted(comparisons))
+    res = {
+        'name': NAME,
+        'scope': '%s tier: %s' % (tier, scope_desc),
+        'cases': tot['cases'],
+        'distinct_nontrivial': tot['nontrivial'],
+        'rule': rule,
+        'n_failures': tot['n_failures'],
+        'failures': failures,
+        'failure_signatures': dict(sorted(sigs.items())),
+        'samples': good,
+        'exhaustive': bool(full and not crashes),
+        'wall_s': 0.0,
+        'tuples': n_tuples,
+        'real_process_runs': tot['evals'],
+        'represented_4valued_assignments': tot['represented4'],
+        'status_abstraction_sound': abstraction_ok,
+        'direct_4valued': {'cases': tot['direct4'],
+                           'n_failures': tot['direct4_fail']},
+        'slow_path_crosschecks': {'n': tot['cross'],
+                                  'mismatches': cross_mismatch[:10],
+                                  'n_mismatches': len(cross_mismatch)},
+        'reported_failures_confirmed_by_replay': '%d/%d' % (confirmed,
+                                                            len(failures)),
+        'harness_anomalies': anomalies[:10],
+        'harness_crashes': crashes[:5],
+        'qwf': {
+            'cases': tot['qwf_cases'], 'checks': tot['qwf_checks'],
+            'damages_applied': qwf_damages,
+            'n_failures': tot['qwf_fail'],
+            'failure_signatures': dict(sorted(qwf_sigs.items())),
+            'failures': [dict(ex[1], signature=s) for s, ex in
+                         sorted(qwf_examples.items(),
+                                key=lambda kv: kv[1][0])][:50],
+        },
+    }
+    res['wall_s'] = round(time.time() - t0, 1)
+    return res
+
+
+if __name__ == '__main__':
+    _tier = sys.argv[1] if len(sys.argv) > 1 else 'quick'
+    _seed = int(sys.argv[2]) if len(sys.argv) > 2 else 0
+    _jobs = int(sys.argv[3]) if len(sys.argv) > 3 else 16
+    print(json.dumps(run(_tier, _seed, _jobs), indent=1, default=str))
